@@ -112,6 +112,30 @@ pub fn judge_hostile(scn: &McScenario, obs: &McObservation, clean: &McObservatio
                         )),
                     }
                 }
+                // a crash message on stderr of a solver that died with a failure status: the
+                // statement does not oblige the caller to find it (whether the exit status is
+                // already visible when stdout reaches end-of-file is a race), but when the returned
+                // error carries solver text, that text must be the message, unmangled
+                (FaultKind::Exit { stderr, status, .. }, Some(_)) | (FaultKind::ExitAfterReply { stderr, status }, Some(_))
+                    if !stderr.trim().is_empty() && *status != 0 =>
+                {
+                    match obs.from_solver_msg.as_ref() {
+                        Some(c) if norm_ws(c).contains(&norm_ws(stderr)) => {
+                            acc.count("probe.stderr_message_carried", 1);
+                            None
+                        }
+                        Some(c) if !c.trim().is_empty() => Some(mk(
+                            "C15/3",
+                            "MangledMessage",
+                            "stderr-of-dead-solver".into(),
+                            format!("solver died printing `{}` on stderr but the returned error carries `{c}`", stderr.trim()),
+                        )),
+                        _ => {
+                            acc.count("note.stderr_message_not_carried", 1);
+                            None
+                        }
+                    }
+                }
                 _ => None,
             }
         }
